@@ -174,3 +174,16 @@ def call_of(S, v):
     if t["t"] != "call":
         return None, []
     return (t.get("resolved") or t.get("callee") or "?"), [S.val(a) for a in t["args"]]
+
+
+def deep_strs(S, v, depth=0):
+    """all string literals in a symbolic value, expanding opaque call results recursively"""
+    out = re.findall(r"s:'([^']*)'", v)
+    if depth > 8:
+        return out
+    for m in re.findall(r"call@(\d+):", v):
+        t = S.fn.blocks[int(m)]["term"]
+        if t["t"] == "call":
+            for a in t["args"]:
+                out += deep_strs(S, S.val(a), depth + 1)
+    return out
